@@ -251,6 +251,9 @@ func runCaseByIndex(prop, tier string, seed uint64, idx int, keepDir string) *Ca
 	if sc.TillCollision {
 		res.Cov["cases_postponed_tillage_meets_the_next_one"]++
 	}
+	if len(sc.OwnNFunction) > 0 {
+		res.Cov["cases_first_crop_with_n_function_7_8_9"]++
+	}
 	if sc.FileExt != "" {
 		res.Cov["cases_with_fileExtension_argument"]++
 	}
